@@ -364,7 +364,7 @@ func OpaqueReplaceAll(s, old, new string) string { return strings.ReplaceAll(s, 
 //@ contract Operator.Run
 //@   tags C08 C16 C19
 //@   results r err
-//@   requires[C08] fresh-context: len(a.ctx.stash) == 0
+//@   requires[C08,C16] fresh-context: len(a.ctx.stash) == 0
 //@   requires[C08] fresh-operator: len(a.lines) == 0
 //@   modifies processorStack, processor, a.lines, a.groupReplacementStringBuilder
 //@   ensures[C16] error-means-no-regex: implies(err != nil, true)
@@ -386,3 +386,8 @@ func OpaqueReplaceAll(s, old, new string) string { return strings.ReplaceAll(s, 
 //@   opt scan-complete C17
 //@   results r err
 //@   modifies processorStack, processor, a.lines, a.groupReplacementStringBuilder
+
+// ---- C02 (E): the patterns the code searches for cover every flag group / flag toggle the
+// regexp/syntax printer can emit (letters i, m, s, U with optional minus signs)
+//@ reglemma[C02] flag-group-pattern-covers-printer: subset(full(`\(\?[-misU]+:`), full(local(operators.Operator.dontUseFlagsForMetaCharacters, flagGroupStartRegexp)))
+//@ reglemma[C02] flag-toggle-pattern-covers-printer: subset(full(`\(\?[-misU]+\)`), full(local(operators.Operator.dontUseFlagsForMetaCharacters, flagsStartRegexp)))
